@@ -2,7 +2,7 @@
 # Mutation self-test of the FIFTH part of the Go -> Lean translation (interface values as abstract
 # states: the Decoder layer of decoder_buffer.go and wrap.go; tools/extract/code_iface.go) and of
 # LzProofs/GenDecoderProps.lean, LzProofs/GenWrapProps.lean; plus the pilot of the parser loop
-# (tools/extract/code_parse.go, LzProofs/GenHPParse.lean: only the straight-line prefix is proved).
+# (tools/extract/code_parse.go, LzProofs/GenHPParse.lean; the mutants of the greedy loop are in genhp_selftest.sh).
 #
 # For every mutant: copy the repository to <verif>/scratch-repo, apply one small semantic
 # change, regenerate LzModel/Generated/Code*.lean from the copy into a COPY of the lake
@@ -115,7 +115,7 @@ mutant "harmless: Write chunk limit hoisted out of the if"    harmless decoder_b
 mutant "harmless: WriteBlock accumulation written n = n + nn" harmless decoder_buffer.go 's/\t\tn \+= nn\n/\t\tn = n + nn\n/'
 mutant "harmless: Write loop condition written 0 < len(p)"    harmless decoder_buffer.go 's/for len\(p\) > 0 \{/for 0 < len(p) {/'
 mutant "harmless: wrap.Parse result written n = 0 first"      harmless wrap.go 's/\t\t\treturn 0, err\n/\t\t\tn = 0\n\t\t\treturn n, err\n/'
-# --- hp.go (pilot: only the empty-block prefix of Parse has a theorem)
+# --- hp.go (the empty-block prefix; the greedy loop: tools/genhp_selftest.sh)
 mutant "hp.Parse: empty block reports n = 1"                  proof hp.go 's/(\tblk\.Literals = blk\.Literals\[:0\]\n\n\tif n == 0 \{\n\t\treturn )0(, ErrEmptyBuffer)/${1}1${2}/'
 mutant "hp.Parse: literals of the block are not reset"        proof hp.go 's/\tblk\.Literals = blk\.Literals\[:0\]\n\n\tif n == 0/\n\tif n == 0/'
 mutant "harmless: hp.Parse block size clamp written with >="  harmless hp.go 's/(func \(s \*hashParser\) Parse.*?)\tif n > s\.BlockSize \{/${1}\tif n >= s.BlockSize {/s'
